@@ -10,7 +10,8 @@ LEVEL = "proof"
 
 
 def _run_once(chk):
-    chk.rule = ("inputs of 1-6 lines from {'', a, bc, é, x CR} with/without final EOL (never the empty input or a lone EOL), -z; plain bounds "
+    chk.rule = ("inputs of 1-6 lines from {'', a, bc, é, x CR, aé😎} with/without final EOL (never the empty input or a lone EOL), -z, handed over by the reader whole or in "
+                "random pieces of 1-4 bytes; plain bounds "
                 "lists of 1-3 bounds resolvable on the input (positive, negative, open, repeated, reordered), --no-join, -m; ascending positive "
                 "lists are additionally compared with the same list in which one index is spelled negatively (forces buffering); non-trivial = "
                 "selects a byte")
@@ -22,7 +23,7 @@ def _run_once(chk):
         z = rng.random() < 0.25
         eol = b"\0" if z else b"\n"
         nl = rng.randint(1, 6)
-        ls = [rng.choice([b"", b"a", b"bc", "é".encode(), b"x\r"]) for _ in range(nl)]
+        ls = [rng.choice([b"", b"a", b"bc", "é".encode(), b"x\r", "aé😎".encode()]) for _ in range(nl)]
         if nl == 1 and ls[0] == b"":
             continue
         inp = eol.join(ls) + (eol if (ls[-1] == b"" or rng.random() < 0.6) else b"")
@@ -39,6 +40,9 @@ def _run_once(chk):
              "in": inp, "z": z, "j": rng.random() < 0.75}
         if rng.random() < 0.15:
             c["m"] = True
+        if rng.random() < 0.6:
+            # the reader hands the input over in pieces of 1-4 bytes: lines and multi-byte characters straddle the reader's buffer fills
+            c["seg"] = [rng.randint(1, 4) for _ in range(len(inp))]
         cases.append(c)
         # equivalent request that forces buffering: spell one positive index negatively
         flat = [(i, s) for i, (l, r) in enumerate(bs) for s in (0, 1) if (l, r)[s] is not None and (l, r)[s] > 0]
